@@ -11,6 +11,12 @@ import (
 
 func hxDialFunc(s *hxSrv) DialContextFunc {
 	return func(ctx context.Context, network, address string) (net.Conn, error) {
+		s.dialed = append(s.dialed, address)
+		if s.refuseDials > 0 {
+			// the port is closed: a later dial (the fallback port) reaches the server
+			s.refuseDials--
+			return nil, &hxNetErr{"dial tcp " + address + ": connect: connection refused"}
+		}
 		return &hxConn{s: s}, nil
 	}
 }
